@@ -245,7 +245,12 @@ class DiskFile(VirtualFileContainer):
 
         for file_name_pointer in range(pointer, pointer + length):
             sequence.append(self.buffer[file_name_pointer])
-        return bytearray(sequence).decode("utf-8") if decode else sequence
+        if not decode:
+            return sequence
+        try:
+            return bytearray(sequence).decode("utf-8")
+        except UnicodeDecodeError:
+            raise VirtualFileValidationError("Unable to decode sequence {}".format(sequence))
 
     def validate_sequence(self, pointer, sequence):
         """
